@@ -55,9 +55,10 @@ Record tlsst := mkTls {
   t_rem : Z;                     (* remainingTime, ms *)
   t_server : bool;               (* SSL_is_server: accept state (socket obtained from a TLS acceptor) *)
   t_started : bool;              (* negation of SSL_in_before: the engine was entered at least once *)
-  t_more : bool                  (* SSL_pending > 0: the engine holds the rest of a decrypted record *)
+  t_more : bool;                 (* SSL_pending > 0: the engine holds the rest of a decrypted record *)
+  t_end : Z                      (* deadline (ns) of the operation in progress, meaningful while t_rem > 0 (finding F15) *)
 }.
-#[export] Instance eta_tls : Settable _ := settable! mkTls <t_last; t_isr; t_isw; t_supp; t_init; t_pend; t_rem; t_server; t_started; t_more>.
+#[export] Instance eta_tls : Settable _ := settable! mkTls <t_last; t_isr; t_isw; t_supp; t_init; t_pend; t_rem; t_server; t_started; t_more; t_end>.
 
 Record ext := mkExt {
   x_pools : list (Z * pool);     (* user pools by key *)
